@@ -51,6 +51,12 @@ def shapes():
         Variant("v0", [Stmt("a", ex=["src"], val=["v"]), Stmt("t", ex=["a"]), Stmt("v", ex=["t", "rules"]), Stmt("u", ex=["t"], val=["v"])],
                 defaults=["u"]),
     ]))
+    # validations of validations: what a validation needs may itself be validated (the walk from the targets finds the
+    # second level only while it walks the first)
+    S.append(("validation_nested", [
+        Variant("v0", [Stmt("a", ex=["src"], val=["v"]), Stmt("v", ex=["a", "rules"], val=["w"]), Stmt("w", ex=["v"], val=["x"]),
+                       Stmt("x", ex=["w", "a"]), Stmt("top", ex=["a"])], defaults=["top"]),
+    ]))
     # two dyndep-bound statements; building only the second leaves the first one's dyndep file missing
     dd1 = "ninja_dyndep_version = 1\nbuild out1 | out1.imp: dyndep\n"
     dd2 = "ninja_dyndep_version = 1\nbuild out2 | out2.imp: dyndep\n"
